@@ -84,6 +84,9 @@ def run_checks(sid, checks):
         return {"error": "patch does not apply to /repo: " + out[-200:]}
     res = {}
     try:
+        if len(checks) > 2:
+            # one parallel rebuild of everything against the changed source, so that the checks do not rebuild one by one
+            sh("%s harness/translate.py; cd coq && timeout 900 make -k -j16 > /dev/null 2>&1" % PY, cwd=VERIF, timeout=1000)
         procs = []
         for c in checks:
             procs.append((c, subprocess.Popen("timeout 900 ./check %s --tier quick" % c, shell=True, cwd=VERIF,
